@@ -1,7 +1,7 @@
 (* C03 -- Forest packs each derivation once; counting and indexing are consistent.
    Statements only; proofs are in Proofs/ForestProofs.v. *)
 From Coq Require Import NArith List Bool.
-From PV Require Import Model.Forest Proofs.ForestProofs.
+From PV Require Import Model.Forest Proofs.ForestProofs Proofs.ForestDistinctProofs.
 Import ListNotations.
 Local Open Scope N_scope.
 
@@ -32,6 +32,21 @@ Theorem C03_oob : forall (F : forest) (i : N),
 Proof. exact checked_out_of_bounds. Qed.
 Print Assumptions C03_oob.
 
+(* len(forest) counts DISTINCT trees and forest[i] are pairwise different, for forests of any
+   size: if the local check forest_distinct_ok passes (alternatives of each packed node differ
+   in production, span, arity or in the span of some child; child nodes have one span each),
+   the represented trees are pairwise different and decoding is injective on [0, len). *)
+Theorem C03_distinct : forall F : forest,
+  forest_wf F = true -> forest_distinct_ok F = true -> NoDup (root_trees F).
+Proof. exact trees_distinct. Qed.
+Print Assumptions C03_distinct.
+
+Theorem C03_index_injective : forall (F : forest) (i j : N),
+  forest_wf F = true -> forest_distinct_ok F = true -> F <> [] ->
+  i < root_count F -> j < root_count F -> tree_at F i = tree_at F j -> i = j.
+Proof. exact index_injective. Qed.
+Print Assumptions C03_index_injective.
+
 (* every forest has at least one tree *)
 Theorem C03_positive : forall F : forest,
   forest_wf F = true -> F <> [] -> 0 < root_count F.
@@ -53,6 +68,7 @@ Definition F_amb : forest :=
     [ANT 1 0 3 [5;1;6]%nat]; [ANT 1 2 5 [6;3;7]%nat];
     [ANT 1 0 5 [8;3;7]%nat; ANT 1 0 5 [5;1;9]%nat] ].
 Example C03_nonvacuous :
-  forest_wf F_amb = true /\ root_count F_amb = 2 /\ length (root_trees F_amb) = 2%nat
+  forest_wf F_amb = true /\ forest_distinct_ok F_amb = true /\
+  root_count F_amb = 2 /\ length (root_trees F_amb) = 2%nat
   /\ tree_at F_amb 1 <> tree_at F_amb 0.
 Proof. vm_compute. repeat split; discriminate. Qed.
